@@ -34,6 +34,25 @@ BUILT["C02"] = (
     "layouts beyond the stated deviation bound are not covered.",
 )
 
+BUILT["C07"] = (
+    "exploration",
+    "exhaustive enumeration of (declared curves, data columns, rows, wrap cuts, sniff-window positions) on the real reader with coordinate-carrying cells",
+    "Every (d declared, c columns, r rows) shape within the bound, unwrapped, and every composition of a wrapped depth "
+    "step into physical lines for c == d, both engines, positive and negative cells, rows around the 20-line sniffing "
+    "window with a blank/comment at the window edge; cell (i, j) carries 100(i+1)+(j+1) so any shift, merge or reorder "
+    "of columns is visible; declared metadata, unnamed surplus curves and NaN-filled missing curves are checked.",
+    "Trusts the independent renderer; shapes beyond the bound (d, c <= 6 quick / 9 thorough) are not covered.",
+)
+BUILT["C05"] = (
+    "exploration",
+    "exhaustive enumeration of section orders (all 720), title spellings, body shapes and steering decoys within a deviation bound; expected content known by construction",
+    "All 720 orders of {~W, ~C, ~P, ~O, custom, ~A} after ~V combined with every single and pair-wise deviation in title "
+    "spelling (upper/lower letter, word, trailing text), body shape (empty, trailing blank/comment) and one steering "
+    "decoy (VERS/WRAP/NULL/DLM placed in ~C, ~P or the custom section); section keys, every item of every section, the "
+    "~Other text and the data matrix (NaN exactly at the genuine NULL cell) must equal what the file was rendered from.",
+    "Trusts the independent renderer; more than one custom section and deviations beyond the bound are not covered.",
+)
+
 PENDING_REASON = "check not built yet in this round (design in DESIGN.md section 3); nothing is claimed for it"
 
 
